@@ -330,7 +330,7 @@ struct Expect {
 }
 
 fn gen_valid(rng: &mut impl Rng) -> (String, Expect, Value) {
-    let template = rng.gen_range(0..4);
+    let template = rng.gen_range(0..5);
     // auto-protocol on no machine, on every machine, or on some (it adds IPv4 and ARP where they are not
     // listed, so then every other machine has to list ARP itself or nobody could resolve anybody)
     let auto_mode = *rng.pick(&[0u8, 0, 1, 2, 2]);
@@ -361,10 +361,22 @@ fn gen_valid(rng: &mut impl Rng) -> (String, Expect, Value) {
     };
     // first octet outside everything IpGenerator::block_reserved_ips treats as reserved
     let b = rng.gen_range(11..=99u8);
-    let a3 = rng.gen_range(1..=200u8);
-    let ipn = |k: u8| format!("{b}.{a3}.7.{}", 10 + k);
-    let ipb = |k: u8| [b, a3, 7, 10 + k];
+    let a3 = rng.gen_range(0..=255u8);
+    let a2 = *rng.pick(&[0u8, 1, 7, 254, 255]);
+    // the ten addresses the templates draw from sit anywhere in the last octet, the ends of it included
+    let lo: u8 = if rng.chance(1, 2) { *rng.pick(&[0u8, 1, 10, 118, 119, 245, 246]) } else { rng.gen_range(0..=246) };
+    let used = std::cell::RefCell::new(std::collections::BTreeSet::<u8>::new());
+    let ipn = |k: u8| {
+        used.borrow_mut().insert(lo + k);
+        format!("{b}.{a3}.{a2}.{}", lo + k)
+    };
+    let ipb = |k: u8| [b, a3, a2, lo + k];
     let msg: String = (0..rng.gen_range(1..=30)).map(|_| *rng.pick(&['a', 'b', 'Z', '0', ' ', '!', '=', '-', '.', ','])).collect::<String>().trim().replace("  ", " _") + "m";
+    // network ids are arbitrary words; the network the applications talk over is the first one a machine lists
+    let mut ids = vec!["main", "1", "0", "net-a", "LAN", "42", "spare", "x y"];
+    ids.shuffle(rng);
+    let live = ids[0].to_string();
+    let spare = ids[1].to_string();
     let protos = |auto_m: bool, rng: &mut dyn rand::RngCore| -> String {
         let mut v = vec!["\t\t\t[Protocol name='UDP']".to_string()];
         // a machine with auto-protocol may leave out either or both of the protocols that option supplies
@@ -379,13 +391,8 @@ fn gen_valid(rng: &mut impl Rng) -> (String, Expect, Value) {
         }
         v.join("\n")
     };
-    let nets_of = |first: &str, rng: &mut dyn rand::RngCore| if extra_net && rng.gen::<bool>() { format!("\t\t\t[Network id='{first}']\n\t\t\t[Network id='spare']") } else { format!("\t\t\t[Network id='{first}']") };
+    let nets_of = |rng: &mut dyn rand::RngCore| if extra_net && rng.gen::<bool>() { format!("\t\t\t[Network id='{live}']\n\t\t\t[Network id='{spare}']") } else { format!("\t\t\t[Network id='{live}']") };
     let mut text = String::new();
-    text.push_str("[Networks]\n\t[Network id='main']\n");
-    text.push_str(&format!("\t\t[IP range='{b}.{a3}.7.10-30']\n"));
-    if extra_net {
-        text.push_str("\t[Network id='spare']\n\t\t[IP ip='9.9.9.9']\n");
-    }
     text.push_str("[Machines]\n");
     let mut expect = Expect { frames: vec![] };
     let machine = |name: &str, opts: &str, apps: &str, rng: &mut dyn rand::RngCore| -> String {
@@ -394,9 +401,20 @@ fn gen_valid(rng: &mut impl Rng) -> (String, Expect, Value) {
             1 => true,
             _ => rng.gen::<bool>(),
         };
-        let mopts = if auto_m { " auto-protocol='true'" } else { "" };
-        format!("\t[Machine name='{name}'{opts}{mopts}]\n\t\t[Networks]\n{}\n\t\t[Protocols]\n{}\n\t\t[Applications]\n{}\n", nets_of("main", rng), protos(auto_m, rng), apps)
+        let mopts = if auto_m { " auto-protocol='true'" } else if rng.gen_range(0..6) == 0 { " auto-protocol='false'" } else { "" };
+        // the three sections of a machine in any order
+        let mut secs = vec![format!("\t\t[Networks]\n{}\n", nets_of(rng)), format!("\t\t[Protocols]\n{}\n", protos(auto_m, rng)), format!("\t\t[Applications]\n{}\n", apps)];
+        if rng.gen_range(0..3) == 0 {
+            let i = (rng.next_u32() % 3) as usize;
+            secs.swap(0, i);
+            let j = (rng.next_u32() % 3) as usize;
+            secs.swap(1, j);
+        }
+        // name and the other options in either order
+        if rng.gen::<bool>() { format!("\t[Machine name='{name}'{opts}{mopts}]\n{}", secs.concat()) } else { format!("\t[Machine{opts}{mopts} name='{name}']\n{}", secs.concat()) }
     };
+    // a sender may name its own address (taken from the network's pool) instead of using the default
+    let sender_ip = |k: u8, count: usize, rng: &mut dyn rand::RngCore| -> String { if count == 1 && rng.next_u32() % 3 == 0 { format!(" ip='{}'", ipn(k)) } else { String::new() } };
     let desc;
     match template {
         0 => {
@@ -409,16 +427,20 @@ fn gen_valid(rng: &mut impl Rng) -> (String, Expect, Value) {
                 let to = if by_name(rng) { "cap".to_string() } else { ipn(0) };
                 // count='1' may be written or left out
                 let copt = if count > 1 || rng.gen::<bool>() { format!(" count='{count}'") } else { String::new() };
-                text.push_str(&machine(&format!("snd{g}"), &copt, &format!("\t\t\t[Application name='send_message' message='{msg}' to='{to}' port='{port_s}']"), rng));
+                let sip = sender_ip(7 + g as u8, count, rng);
+                text.push_str(&machine(&format!("snd{g}"), &copt, &format!("\t\t\t[Application name='send_message' message='{msg}' to='{to}' port='{port_s}'{sip}]"), rng));
             }
-            text.push_str(&machine("cap", "", &format!("\t\t\t[Application name='capture' type='count' ip='{}' port='{port_r}' message_count='{total}']", ipn(0)), rng));
+            // a capture that waits for one message may say so or rely on the default
+            let how = if total == 1 && rng.gen::<bool>() { String::new() } else { format!(" type='count' message_count='{total}'") };
+            text.push_str(&machine("cap", "", &format!("\t\t\t[Application name='capture'{how} ip='{}' port='{port_r}']", ipn(0)), rng));
             expect.frames.push((ipb(0), port, msg.clone().into_bytes(), total));
-            desc = json!({"template": "senders->capture(count)", "groups": groups, "total_messages": total});
+            desc = json!({"template": "senders->capture(count)", "groups": groups, "total_messages": total, "capture_args": how});
         }
         1 => {
             let to = if by_name(rng) { "fwd".to_string() } else { ipn(1) };
             let to2 = if by_name(rng) { "cap".to_string() } else { ipn(2) };
-            text.push_str(&machine("snd", "", &format!("\t\t\t[Application name='send_message' message='{msg}' to='{to}' port='{port_s}']"), rng));
+            let sip = sender_ip(7, 1, rng);
+            text.push_str(&machine("snd", "", &format!("\t\t\t[Application name='send_message' message='{msg}' to='{to}' port='{port_s}'{sip}]"), rng));
             text.push_str(&machine("fwd", "", &format!("\t\t\t[Application name='forward' ip='{}' to='{to2}' local_port='{port_r}' remote_port='{q_s}']", ipn(1)), rng));
             text.push_str(&machine("cap", "", &format!("\t\t\t[Application name='capture' type='message' ip='{}' port='{q_r}' message='{msg}']", ipn(2)), rng));
             expect.frames.push((ipb(1), port, msg.clone().into_bytes(), 1));
@@ -427,27 +449,95 @@ fn gen_valid(rng: &mut impl Rng) -> (String, Expect, Value) {
         }
         2 => {
             let (to1, to2) = if by_name(rng) { ("pong".to_string(), "ping".to_string()) } else { (ipn(4), ipn(3)) };
-            text.push_str(&machine("ping", "", &format!("\t\t\t[Application name='ping_pong' starter='true' ip='{}' to='{to1}' local_port='{port_r}' remote_port='{q_s}']", ipn(3)), rng));
-            text.push_str(&machine("pong", "", &format!("\t\t\t[Application name='ping_pong' starter='false' ip='{}' to='{to2}' local_port='{q_r}' remote_port='{port_s}']", ipn(4)), rng));
+            let yes = *rng.pick(&["true", "true", "t", "T", "True", "TRUE"]);
+            let no = *rng.pick(&["false", "false", "f", "F", "False", "no"]);
+            text.push_str(&machine("ping", "", &format!("\t\t\t[Application name='ping_pong' starter='{yes}' ip='{}' to='{to1}' local_port='{port_r}' remote_port='{q_s}']", ipn(3)), rng));
+            text.push_str(&machine("pong", "", &format!("\t\t\t[Application name='ping_pong' starter='{no}' ip='{}' to='{to2}' local_port='{q_r}' remote_port='{port_s}']", ipn(4)), rng));
             expect.frames.push((ipb(4), q, vec![255], 1));
             expect.frames.push((ipb(3), port, vec![254], 1));
             expect.frames.push((ipb(3), port, vec![2], 1));
-            desc = json!({"template": "ping_pong"});
+            desc = json!({"template": "ping_pong", "starter": [yes, no]});
         }
-        _ => {
+        3 => {
             // two captures sharing a factory, each with its own senders
             let c1 = rng.gen_range(1..=4usize);
             let c2 = rng.gen_range(1..=4usize);
             let (t1, t2) = if by_name(rng) { ("capA".to_string(), "capB".to_string()) } else { (ipn(5), ipn(6)) };
+            let fac = *rng.pick(&["f1", "0", "shared factory"]);
             text.push_str(&machine("sA", &format!(" count='{c1}'"), &format!("\t\t\t[Application name='send_message' message='{msg}' to='{t1}' port='{port_s}']"), rng));
             text.push_str(&machine("sB", &format!(" count='{c2}'"), &format!("\t\t\t[Application name='send_message' message='{msg}' to='{t2}' port='{port_s}']"), rng));
-            text.push_str(&machine("capA", "", &format!("\t\t\t[Application name='capture' type='count' ip='{}' factory='f1' port='{port_r}' message_count='{c1}']", ipn(5)), rng));
-            text.push_str(&machine("capB", "", &format!("\t\t\t[Application name='capture' type='count' ip='{}' factory='f1' port='{port_r}' message_count='{c2}']", ipn(6)), rng));
+            text.push_str(&machine("capA", "", &format!("\t\t\t[Application name='capture' type='count' ip='{}' factory='{fac}' port='{port_r}' message_count='{c1}']", ipn(5)), rng));
+            text.push_str(&machine("capB", "", &format!("\t\t\t[Application name='capture' type='count' ip='{}' factory='{fac}' port='{port_r}' message_count='{c2}']", ipn(6)), rng));
             expect.frames.push((ipb(5), port, msg.clone().into_bytes(), c1));
             expect.frames.push((ipb(6), port, msg.clone().into_bytes(), c2));
             desc = json!({"template": "two captures sharing a factory", "counts": [c1, c2]});
         }
+        _ => {
+            // two machines that each send to the other and capture what the other sends (several applications on
+            // one machine; the captures share a factory so that the run ends when both have what they wait for).
+            // The capture is listed last, so that the machine's name stands for the capture's address.
+            let msg2 = format!("{msg}2");
+            let (tl, tr) = if by_name(rng) { ("left".to_string(), "right".to_string()) } else { (ipn(5), ipn(6)) };
+            let s1 = sender_ip(7, 1, rng);
+            let s2 = sender_ip(8, 1, rng);
+            text.push_str(&machine("left", "", &format!("\t\t\t[Application name='send_message' message='{msg}' to='{tr}' port='{port_s}'{s1}]\n\t\t\t[Application name='capture' type='message' message='{msg2}' ip='{}' factory='both' port='{q_r}']", ipn(5)), rng));
+            text.push_str(&machine("right", "", &format!("\t\t\t[Application name='send_message' message='{msg2}' to='{tl}' port='{q_s}'{s2}]\n\t\t\t[Application name='capture' type='message' message='{msg}' ip='{}' factory='both' port='{port_r}']", ipn(6)), rng));
+            expect.frames.push((ipb(6), port, msg.clone().into_bytes(), 1));
+            expect.frames.push((ipb(5), q, msg2.clone().into_bytes(), 1));
+            desc = json!({"template": "two machines, each sending to and capturing from the other"});
+        }
     }
+    // the live network's address entries: any mixture of single addresses and ranges that covers what the
+    // applications use - often exactly, so that the first and the last address of a range are in use
+    let used: Vec<u8> = used.borrow().iter().copied().collect();
+    let (umin, umax) = (used[0], *used.last().unwrap());
+    let mut entries: Vec<String> = vec![];
+    let entry_mode = rng.gen_range(0..4);
+    match entry_mode {
+        0 => {
+            // one range, tight or generous at either end
+            let s = if rng.gen::<bool>() { umin } else { umin.saturating_sub(rng.gen_range(0..=9)) };
+            let e = if rng.gen::<bool>() { umax } else if rng.gen_range(0..4) == 0 { 255 } else { umax.saturating_add(rng.gen_range(0..=20)) };
+            entries.push(format!("[IP range='{b}.{a3}.{a2}.{s}-{e}']"));
+        }
+        1 => {
+            // every address on its own
+            for u in &used {
+                entries.push(if rng.gen_range(0..4) == 0 { format!("[IP range='{b}.{a3}.{a2}.{u}-{u}']") } else { format!("[IP ip='{b}.{a3}.{a2}.{u}']") });
+            }
+        }
+        _ => {
+            // consecutive pieces of umin..=umax, cut at random places
+            let mut s = umin;
+            loop {
+                let e = if rng.gen_range(0..3) == 0 { umax } else { rng.gen_range(s..=umax) };
+                entries.push(if s == e && rng.gen::<bool>() { format!("[IP ip='{b}.{a3}.{a2}.{s}']") } else { format!("[IP range='{b}.{a3}.{a2}.{s}-{e}']") });
+                if e == umax {
+                    break;
+                }
+                s = e + 1;
+            }
+        }
+    }
+    if rng.gen_range(0..4) == 0 {
+        // an address of another prefix that nobody uses
+        entries.push(format!("[IP ip='{}.{a3}.{a2}.{}']", b + 100, lo));
+    }
+    entries.shuffle(rng);
+    let live_net = format!("\t[Network id='{live}']\n{}", entries.iter().map(|e| format!("\t\t{e}\n")).collect::<String>());
+    let spare_net = format!("\t[Network id='{spare}']\n\t\t[IP ip='9.9.9.9']\n");
+    let mut nets_text = String::new();
+    if extra_net {
+        match rng.gen_range(0..4) {
+            0 => nets_text.push_str(&format!("[Networks]\n{live_net}{spare_net}")),
+            1 => nets_text.push_str(&format!("[Networks]\n{spare_net}{live_net}")),
+            2 => nets_text.push_str(&format!("[Networks]\n{live_net}[Networks]\n{spare_net}")),
+            _ => nets_text.push_str(&format!("[Networks]\n{spare_net}[Networks]\n{live_net}")),
+        }
+    } else {
+        nets_text.push_str(&format!("[Networks]\n{live_net}"));
+    }
+    let text = if rng.gen_range(0..5) == 0 { format!("{text}{nets_text}") } else { format!("{nets_text}{text}") };
     let style = rng.gen_range(0..3);
     let style_name = ["tabs", "spaces", "crlf"][style];
     let text = match style {
@@ -455,7 +545,7 @@ fn gen_valid(rng: &mut impl Rng) -> (String, Expect, Value) {
         1 => text.replace('\t', "    "),
         _ => text.replace('\n', "\r\n"),
     };
-    (text, expect, json!({"what": desc, "arp": arp, "auto_protocol": auto_name, "by_name": by_name_name, "extra_network": extra_net, "port": format!("{port_s} / {port_r}"), "style": style_name}))
+    (text, expect, json!({"what": desc, "arp": arp, "auto_protocol": auto_name, "by_name": by_name_name, "extra_network": extra_net, "port": format!("{port_s} / {port_r}"), "style": style_name, "network_ids": [live, spare], "address_entries": entries}))
 }
 
 fn run_case(d: &mut Delta, rng: &mut rand::rngs::SmallRng, sample: bool) {
